@@ -746,6 +746,28 @@ pub fn run(ctx: &Ctx) -> Report {
         acc.sample(json!({"corrupted": "log 255", "type": "RawFuzzyHash"}));
         acc.into_report(&mut rep, "corrupted_objects_never_make_is_valid_full_eq_debug_panic(unchecked_feature_build)");
     }
+    // Default impls are the empty objects
+    {
+        let mut acc = Acc::default();
+        acc.evaluations += 1;
+        acc.nontrivial += 1;
+        let ok = RawFuzzyHash::default().full_eq(&RawFuzzyHash::new())
+            && LongRawFuzzyHash::default().full_eq(&LongRawFuzzyHash::new())
+            && FuzzyHash::default().full_eq(&FuzzyHash::new())
+            && LongFuzzyHash::default().full_eq(&LongFuzzyHash::new())
+            && DualFuzzyHash::default() == DualFuzzyHash::new()
+            && LongDualFuzzyHash::default() == LongDualFuzzyHash::new()
+            && FuzzyHashCompareTarget::default().full_eq(&FuzzyHashCompareTarget::new())
+            && BlockHashPositionArray::default() == BlockHashPositionArray::new()
+            && format!("{:?}", Generator::default()) == format!("{:?}", Generator::new())
+            && RawFuzzyHash::new().to_string() == "3::"
+            && DualFuzzyHash::new().is_valid()
+            && FuzzyHashCompareTarget::new().is_valid();
+        if !ok {
+            acc.violation("Default impls".into(), "a Default impl differs from new() / the empty object is not `3::`".into(), json!({"path": []}));
+        }
+        acc.into_report(&mut rep, "default_impls");
+    }
     // depth-1 sweep with the full menu (every constructor with every in / out-of-contract argument
     // set) from the initial state and from three populated base states
     let full = Menu::new(true);
